@@ -1,5 +1,5 @@
 """C20 - rate limiters never exceed the quota and keep per-key order (DESIGN 6/C20)."""
-import vlib, parts_subject, tracecheck
+import vlib, parts_multi, parts_subject, tracecheck
 
 PID = 'C20'
 
@@ -12,6 +12,9 @@ def main(argv):
     # the native limiter keeps one unicast subject per key and per window: per-key order rests on the unicast subject delivering its queued
     # backlog and the live values in one order when it is subscribed while the source keeps emitting (SubjectLin.tla, park mode)
     parts_subject.lin_part(rep, PID, 40 if th else 12, [rep.seed * 100 + 60 + i for i in range(2 if th else 1)], park=True, kind='unicast')
+    # the native limiter is GroupBy(key) | per-group window: the quota is per key only as long as GroupBy keeps ONE group per key, also when the
+    # consumer of a group has left (MultiDef.tla GroupBy / GroupByLeave)
+    parts_multi.run_single(rep, PID, th)
     rep.cov['rule'] = ('seeded scenarios: native and ulule limiter, quota 1..3, window 5-20 ms, 1-3 keys, 5-40 items arriving in bursts / steadily / sparsely, synchronous and asynchronous '
                        'sources, consumers that dwell about a window on one item, completion and error; for ulule also 2-4 streams sharing ONE limiter over a store with latency; the recorded '
                        'trace is validated by TLC against RateLimitTrace.tla: order-preserving subsequence without duplicates per key, quota bound quota*(L div window + 2) over EVERY pair of '
@@ -23,4 +26,7 @@ def main(argv):
 def replay(path):
     if 'subject-lin' in path:
         return parts_subject.replay_lin(PID, path)
+    if path.endswith('.json'):
+        vlib.build_harness()
+        return parts_multi.replay_case(PID, path)
     return tracecheck.replay(PID, 'RateLimitTrace', 'RateLimitTrace_x.cfg', path)
